@@ -227,7 +227,10 @@ def do_op(env, op):
     w, c = env.world, env.reg
     k = op[0]
     if k == "reinit":
-        c.__init__("c16")
+        if len(op) > 1:          # ["reinit", "keep"]: the test-cleanup idiom, bases kept
+            c.__init__("c16", bases=c.__bases__)
+        else:
+            c.__init__("c16")
         return None
     if k == "newc":
         env.regs.append(Components("c%d" % len(env.regs), bases=tuple(env.regs[b] for b in op[1])))
